@@ -216,7 +216,7 @@ def spec_rsp_size(r):
     if k in ("WSC", "WMC", "WSR", "WMR"):
         return 5
     if k == "RSI":
-        return 3 + len(r[3])
+        return 4 + len(r[3])
     if k == "MWR":
         return 7
     if k == "CU":
@@ -418,7 +418,7 @@ def rnd_rsp(rng, kind=None, oversize=0):
     if k in ("WMC", "WSR", "WMR"):
         return (k, rnd_word(rng), rnd_word(rng))
     if k == "RSI":
-        n = rnd_len(rng, 250, oversize)
+        n = rnd_len(rng, 249, oversize)
         return (k, rng.randrange(256), rng.random() < 0.5, bytes(rng.randrange(256) for _ in range(n)))
     if k == "MWR":
         return (k, rnd_word(rng), rnd_word(rng), rnd_word(rng))
